@@ -4,7 +4,7 @@
    theorem; what is proved: every flag test in the executed interpreter code has a restrictive shape (generated site list),
    and each flag-dependent check (script-number minimality, signature / public-key encoding) passes under A whenever it
    passes under B. Whole-execution monotonicity is evaluated on paired runs of the implementation. *)
-From BV Require Import Base BaseProofs ScriptNum Script Interp Value Transforms Cli FlagProofs.
+From BV Require Import Base BaseProofs ScriptNum Script Interp Value Transforms Cli FlagProofs FlagStepProofs.
 From BV.Gen Require Import Consts CliTables.
 Local Open Scope Z_scope.
 
@@ -49,6 +49,14 @@ Proof.
   intros; eapply check_pubkey_encoding_monotone; eassumption.
 Qed.
 
+(* VERIFICATION FLAGS ONLY EVER RESTRICT, for every step: whatever one step does successfully under a flag set B - any opcode incl. the
+   signature opcodes, any stack, any script version, inside or outside exec - it does identically under every subset A of B
+   (flags only add failure conditions: minimal encodings, CLTV/CSV, discouraged NOPs / key types, MINIMALIF, CONST_SCRIPTCODE,
+   signature and key encodings, NULLFAIL, NULLDUMMY) *)
+Theorem C09_step_only_restricts : forall low_s c A B, flags_sub A B -> forall e pc local e1 pc1,
+  step_script low_s (with_flags c B) e pc local = (e1, pc1, SOk) -> step_script low_s (with_flags c A) e pc local = (e1, pc1, SOk).
+Proof. exact step_script_mono. Qed.
+
 Example C09_ex : svf_parse_flags main_initial_flags [45;78;85;76;76;68;85;77;77;89;44;43;83;73;71;80;85;83;72;79;78;76;89] (* "-NULLDUMMY,+SIGPUSHONLY" *)
   = Some (Z.lor (Z.land STANDARD_SCRIPT_VERIFY_FLAGS (Z.lnot SCRIPT_VERIFY_NULLDUMMY)) SCRIPT_VERIFY_SIGPUSHONLY)
   /\ svf_parse_flags main_initial_flags [43;70;79;79] = None /\ svf_parse_flags main_initial_flags [] = None
@@ -56,6 +64,7 @@ Example C09_ex : svf_parse_flags main_initial_flags [45;78;85;76;76;68;85;77;77;
 Proof. repeat split; vm_compute; reflexivity. Qed.
 
 Print Assumptions C09_table_ok.
+Print Assumptions C09_step_only_restricts.
 Print Assumptions C09_parse_known.
 Print Assumptions C09_default_list.
 Print Assumptions C09_flag_sites_restrictive.
